@@ -102,6 +102,10 @@ func newLifeEnv(seed int64, ukt, rkt string, h int) *lifeEnv {
 	p.Patches = append(p.Patches, "remove-also-known-as")
 	// the protocol "matching" the client: the algorithm the requests use comes first
 	p.MultihashAlgorithms = []uint{uint(algCode(h)), uint(sha2_256 + sha2_512 - algCode(h))}
+	if h == 512 {
+		// (a protocol "matches" when it lists the algorithm, wherever in the list)
+		p.MultihashAlgorithms = []uint{sha2_256, sha2_512}
+	}
 
 	parser := operationparser.New(p)
 
